@@ -175,6 +175,10 @@ func (eval Evaluator) PartialTracesSum(ctIn *Ciphertext, offset, n int, opOut *C
 		return fmt.Errorf("partialtrace: invalid parameter (n = 0 or batchSize = 0)")
 	}
 
+	if ctIn.Degree() != 1 {
+		return fmt.Errorf("partialtrace: ctIn.Degree() != 1")
+	}
+
 	params := eval.GetRLWEParameters()
 
 	levelQ := ctIn.Level()
@@ -335,6 +339,10 @@ func (eval Evaluator) PartialTracesSum(ctIn *Ciphertext, offset, n int, opOut *C
 //     =
 //     [{f(f(a,c),f(e,g)), f(f(b, d), f(f, h))}, {x, x}, {x, x}, {x, x}, {f(f(a,c),f(e,g)), f(f(b, d), f(f, h))}, {x, x}, {x, x}, {x, x}]
 func (eval Evaluator) InnerFunction(ctIn *Ciphertext, batchSize, n int, f func(a, b, c *Ciphertext) (err error), opOut *Ciphertext) (err error) {
+
+	if ctIn.Degree() != 1 {
+		return fmt.Errorf("innerfunction: ctIn.Degree() != 1")
+	}
 
 	params := eval.GetRLWEParameters()
 
